@@ -308,6 +308,119 @@ fn run_member_count() -> (u64, Vec<Value>) {
     (n, f)
 }
 
+/// Rule selection: the first enabled rule all of whose conditions hold, kinds in the order override, content, room,
+/// sender, underride and list order within a kind; nothing for an event sent by the user themselves.
+/// Per kind one of 7 configurations of (matching / non-matching / disabled-but-matching) rules: 7^5 rulesets x 2 senders.
+fn run_selection() -> (u64, Vec<Value>) {
+    use ruma_common::push::{Action, NewConditionalPushRule, NewPatternedPushRule, NewPushRule, NewSimplePushRule, RuleKind, Ruleset};
+    use ruma_common::OwnedRoomId;
+    let (mut n, mut f) = (0u64, vec![]);
+    let c = ctx();
+    // rule descriptors: (suffix, matches, enabled)
+    let configs: [&[(&str, bool, bool)]; 7] = [
+        &[],
+        &[("m", true, true)],
+        &[("n", false, true)],
+        &[("d", true, false)],
+        &[("n", false, true), ("m", true, true)],
+        &[("d", true, false), ("m", true, true)],
+        &[("m", true, true), ("m2", true, true)],
+    ];
+    let kinds = ["override", "content", "room", "sender", "underride"];
+    let raw_other: Raw<Value> = Raw::new(&json!({"sender": "@o:s", "room_id": "!r:s", "type": "m.room.message", "content": {"body": "hit"}})).unwrap();
+    let raw_own: Raw<Value> = Raw::new(&json!({"sender": "@me:s", "room_id": "!r:s", "type": "m.room.message", "content": {"body": "hit"}})).unwrap();
+    let mut idx = [0usize; 5];
+    loop {
+        let mut rs = Ruleset::new();
+        let mut skip = false;
+        // expected list order per kind as inserted: read back from the public sets below
+        for (ki, kind) in kinds.iter().enumerate() {
+            for (suffix, matches, enabled) in configs[idx[ki]] {
+                let id = format!("{kind}_{suffix}");
+                let cond = vec![PushCondition::EventMatch { key: "content.body".into(), pattern: if *matches { "hit".into() } else { "miss".into() } }];
+                let (rule, rid): (NewPushRule, String) = match *kind {
+                    "override" => (NewPushRule::Override(NewConditionalPushRule::new(id.clone(), cond, vec![Action::Notify])), id.clone()),
+                    "underride" => (NewPushRule::Underride(NewConditionalPushRule::new(id.clone(), cond, vec![Action::Notify])), id.clone()),
+                    "content" => (NewPushRule::Content(NewPatternedPushRule::new(id.clone(), if *matches { "hit".into() } else { "miss".into() }, vec![Action::Notify])), id.clone()),
+                    "room" => {
+                        // a room rule matches iff its id is the event's room: only one matching id exists
+                        if *suffix == "m2" {
+                            skip = true;
+                            continue;
+                        }
+                        let rid = if *matches { "!r:s".to_owned() } else { "!other:s".to_owned() };
+                        if *suffix == "d" && configs[idx[ki]].len() > 1 {
+                            skip = true;
+                            continue;
+                        }
+                        (NewPushRule::Room(NewSimplePushRule::new(OwnedRoomId::try_from(rid.as_str()).unwrap(), vec![Action::Notify])), rid)
+                    }
+                    _ => {
+                        if *suffix == "m2" || (*suffix == "d" && configs[idx[ki]].len() > 1) {
+                            skip = true;
+                            continue;
+                        }
+                        let rid = if *matches { "@o:s".to_owned() } else { "@z:s".to_owned() };
+                        (NewPushRule::Sender(NewSimplePushRule::new(OwnedUserId::try_from(rid.as_str()).unwrap(), vec![Action::Notify])), rid)
+                    }
+                };
+                // append at the end of the kind's user rules: after the previously inserted rule
+                if rs.insert(rule, None, None).is_err() {
+                    skip = true;
+                }
+                if !enabled {
+                    let _ = rs.set_enabled(RuleKind::from(*kind), &rid, false);
+                }
+            }
+        }
+        if !skip {
+            // oracle over the public rule sets (list order = iteration order of each set)
+            let mut want: Option<String> = None;
+            let hit = |enabled: bool, matches: bool, id: String, want: &mut Option<String>| {
+                if want.is_none() && enabled && matches {
+                    *want = Some(id);
+                }
+            };
+            for r in &rs.override_ {
+                hit(r.enabled, r.rule_id.ends_with("_m") || r.rule_id.ends_with("_m2") || r.rule_id.ends_with("_d"), r.rule_id.clone(), &mut want);
+            }
+            for r in &rs.content {
+                hit(r.enabled, r.pattern == "hit", r.rule_id.clone(), &mut want);
+            }
+            for r in &rs.room {
+                hit(r.enabled, r.rule_id == "!r:s", r.rule_id.to_string(), &mut want);
+            }
+            for r in &rs.sender {
+                hit(r.enabled, r.rule_id == "@o:s", r.rule_id.to_string(), &mut want);
+            }
+            for r in &rs.underride {
+                hit(r.enabled, r.rule_id.ends_with("_m") || r.rule_id.ends_with("_m2") || r.rule_id.ends_with("_d"), r.rule_id.clone(), &mut want);
+            }
+            for (raw, own) in [(&raw_other, false), (&raw_own, true)] {
+                n += 1;
+                let got = rs.get_match(raw, &c).map(|r| r.rule_id().to_owned());
+                let w = if own { None } else { want.clone() };
+                if got != w {
+                    fail(&mut f, json!({"ruleset": serde_json::to_value(&rs).unwrap(), "event_sender_is_the_user": own, "observed": got, "expected": w}));
+                }
+            }
+        }
+        // next index vector
+        let mut k = 0;
+        loop {
+            idx[k] += 1;
+            if idx[k] < configs.len() {
+                break;
+            }
+            idx[k] = 0;
+            k += 1;
+            if k == 5 {
+                return (n, f);
+            }
+        }
+    }
+}
+
 pub fn run(tier: &str) -> Report {
     let thorough = tier == "thorough";
     let pat_alpha = ['a', 'B', '*', '?', ' ', '\u{e9}'];
@@ -360,12 +473,13 @@ pub fn run(tier: &str) -> Report {
     }
     let (nf, f_paths, f_contains, f_fpanic) = run_flatten();
     let (nm, f_count) = run_member_count();
+    let (ns, f_sel) = run_selection();
     for x in f_fpanic {
         fail(&mut f_panic, x);
     }
     Report {
         bound: format!(
-            "glob: {} patterns (all of length 1..3 over {{a,B,*,?,space,é}} + {} longer) x {} values (all of length 0..{} over {:?} + longer cases) x {{content.body, other key}}; flattening: {} objects with <= 2 entries over 5 keys x 14 values, 10 probe scalars per path; room_member_count: 6 operators x bounds 0..5 x member counts 0..7",
+            "glob: {} patterns (all of length 1..3 over {{a,B,*,?,space,é}} + {} longer) x {} values (all of length 0..{} over {:?} + longer cases) x {{content.body, other key}}; flattening: {} objects with <= 2 entries over 5 keys x 14 values, 10 probe scalars per path; room_member_count: 6 operators x bounds 0..5 x member counts 0..7; rule selection: 7 per-kind configurations ^ 5 kinds x own/other sender",
             patterns.len(),
             21,
             values.len(),
@@ -380,6 +494,7 @@ pub fn run(tier: &str) -> Report {
             ("flattened_paths_and_scalar_values_match_the_spec", nf, f_paths),
             ("array_contains_sees_every_scalar_element", nf, f_contains),
             ("room_member_count_comparisons_match_the_spec", nm, f_count),
+            ("first_enabled_matching_rule_in_kind_and_list_order", ns, f_sel),
             ("pattern_matching_and_flattening_never_panic", n + nf, f_panic),
         ],
     }
